@@ -50,6 +50,16 @@ KINDS = ("ping", "version", "verack", "inv", "addr", "unknown", "known")
 CLASS_KINDS = {"R": ("ping", "version"), "S": ("verack",), "Q": ("inv", "addr", "unknown", "known")}
 CLASS_WEIGHT = {"R": 4, "S": 3, "Q": 2}  # steps per message in the current code; only used to balance shards
 MAGIC = W.REGTEST
+NET_MAGIC = {"regtest": W.REGTEST, "testnet": W.TESTNET, "mainnet": W.MAINNET}
+
+
+def _net_of(peers):
+    """The network a case runs under, decided by its content: cases of different networks follow one another in one
+    process (what a long-lived process that is pointed at another network, or a test harness, does)."""
+    try:
+        return ("regtest", "testnet", "mainnet", "regtest")[(int(peers[0][0][1]) >> 22) % 4]
+    except (IndexError, TypeError, ValueError):
+        return "regtest"
 IP_ASCII = b"::ffff:127.0.0.1"  # the 16 bytes bits itself puts into the address fields
 
 
@@ -164,6 +174,8 @@ class Plan:
         self.n = len(peers)
         self.skip = None
         self.parse_raises = None
+        self.net = _net_of(peers)
+        self.magic = NET_MAGIC[self.net]
         # how the peers' bytes reach recv(): message by message, or as one TCP-like byte stream in which a read may run
         # past the end of a message (decided by the case's content so that a case always replays the same way)
         self.stream = bool(peers) and bool(peers[0]) and (int(peers[0][0][1]) >> 20) % 2 == 1
@@ -178,7 +190,7 @@ class Plan:
             wire, reply, queued, ver, hd = [], [], [], None, []
             for i, (kind, salt) in enumerate(msgs):
                 cmd, payload = build_message(kind, p, i, salt)
-                wire.append(W.message(MAGIC, cmd, payload))
+                wire.append(W.message(self.magic, cmd, payload))
                 parsed = attempt(p2p.parse_payload, cmd, payload)
                 if raised(parsed):
                     # the message is well formed (built by the reference): it must still be handled or queued once; what
@@ -198,7 +210,7 @@ class Plan:
             self.exp_queue.append(queued)
             self.exp_version.append(ver)
             self.handled.append(hd)
-        self.exp_bytes = [b"".join(W.message(MAGIC, c, pl) for c, pl in r) for r in self.exp_reply]
+        self.exp_bytes = [b"".join(W.message(self.magic, c, pl) for c, pl in r) for r in self.exp_reply]
         self._serial = None
 
     def serial_sigs(self, p2p):
@@ -327,7 +339,7 @@ def judge(plan, ex):
             continue  # the misdirected bytes explain the difference; one signature for one cause
         want = plan.exp_reply[p]
         try:
-            msgs = W.split_stream(got, MAGIC)
+            msgs = W.split_stream(got, plan.magic)
         except W.WireError as e:
             add("reply/malformed", f"peer {p}: {e}: {got.hex()[:120]}")
             continue
@@ -415,15 +427,16 @@ class _Magic:
     message at DEBUG, which no handler prints but which cost more than the execution itself); both module-level
     settings are restored afterwards."""
 
-    def __init__(self, p2p, keep_logging=False):
+    def __init__(self, p2p, keep_logging=False, net="regtest"):
         self.p2p = p2p
+        self.net = net
         self.keep_logging = keep_logging  # a share of the cases runs with the module's own logger level (code behind
         # isEnabledFor / debug-only branches is then executed as it is by default)
 
     def __enter__(self):
         self.saved = self.p2p.MAGIC_START_BYTES
         self.level = self.p2p.log.level
-        self.p2p.set_magic_start_bytes("regtest")
+        self.p2p.set_magic_start_bytes(self.net)
         if not self.keep_logging:
             self.p2p.log.setLevel(logging.CRITICAL + 10)
 
@@ -451,6 +464,7 @@ def _case_labels(peers):
     out = [f"case:peers-{len(peers)}", "case:msgs-" + "x".join(str(len(m)) for m in peers)]
     for k in sorted({k for m in peers for k, _ in m}):
         out.append("kind:" + k)
+    out.append("net:" + _net_of(peers))
     if peers and peers[0] and (int(peers[0][0][1]) >> 20) % 2 == 1:
         out.append("nt:case/byte-stream-delivery")
     else:
@@ -476,7 +490,7 @@ def check_schedule(case):
     p2p = _lib()
     peers = _norm_peers(case["peers"])
     schedule = [int(c) for c in case["schedule"]]
-    with _Magic(p2p, keep_logging=bool(case.get("log"))):
+    with _Magic(p2p, keep_logging=bool(case.get("log")), net=_net_of(peers)):
         plan = Plan(p2p, peers)
         if plan.skip:
             return ["skip:library-parse-raises"], []
@@ -541,7 +555,7 @@ def check_exhaustive(case):
     prefix = [int(c) for c in case.get("prefix", [])]
     classes = []
     found = {}
-    with _Magic(p2p):
+    with _Magic(p2p, net=_net_of(peers)):
         plan = Plan(p2p, peers)
         if plan.skip:
             return ["skip:library-parse-raises"], []
@@ -563,7 +577,7 @@ def check_walks(case):
     peers = _norm_peers(case["peers"])
     classes = []
     found = {}
-    with _Magic(p2p):
+    with _Magic(p2p, net=_net_of(peers)):
         plan = Plan(p2p, peers)
         if plan.skip:
             return ["skip:library-parse-raises"], []
@@ -628,7 +642,7 @@ def check_line_preempt(case):
     p2p = _lib()
     peers = _norm_peers(case["peers"])
     classes, found = [], {}
-    with _Magic(p2p):
+    with _Magic(p2p, net=_net_of(peers)):
         plan = Plan(p2p, peers)
         if plan.skip:
             return ["skip:library-parse-raises"], []
@@ -648,7 +662,7 @@ def check_line_sampled(case):
     pre = {0: int(case["first"])}
     for s, c in case["switches"]:
         pre[int(s)] = int(c)
-    with _Magic(p2p):
+    with _Magic(p2p, net=_net_of(peers)):
         plan = Plan(p2p, peers)
         if plan.skip:
             return ["skip:library-parse-raises"], []
@@ -790,7 +804,7 @@ def targets(tier):
             strategy=lambda tier: sampled_cases(),
             budget={"quick": 4000, "thorough": 50000},
             required=[NT, "nt:exec/library-logging-at-its-own-level", "case:peers-2", "case:peers-3", "nt:case/addr-boundary-count", "nt:case/inv-boundary-count",
-                      "nt:case/addr-1000-entries", "nt:case/unknown-command-fills-12-bytes", "nt:case/byte-stream-delivery", "case/per-message-delivery", "nt:case/same-inv-or-addr-content-sent-more-than-once"] + ["kind:" + k for k in KINDS],
+                      "nt:case/addr-1000-entries", "nt:case/unknown-command-fills-12-bytes", "nt:case/byte-stream-delivery", "case/per-message-delivery", "nt:case/same-inv-or-addr-content-sent-more-than-once", "net:mainnet", "net:testnet", "net:regtest"] + ["kind:" + k for k in KINDS],
         ),
         Target(
             "walks-3x2",
